@@ -212,9 +212,7 @@ def register(I):
     def string_as_str(v):
         if isinstance(v, StrSlice):
             return v
-        if any(isinstance(x, Seg) for x in v.items):
-            raise Unsupported("&str view of a formatted rope")
-        b = SymBuf(v.items, name="owned")
+        b = SymBuf(v.items, name="owned")      # may contain formatted segments (ropes); parsers never see those
         return StrSlice(b, 0, len(v.items))
 
     @reg("Deref::deref", "DerefMut::deref_mut", "Borrow::borrow")
